@@ -93,7 +93,11 @@ func fill(d *Desc, v *Val, rv reflect.Value) error {
 			rv.Index(i).SetUint(uint64(v.S[i]))
 		}
 	case d.K == "time":
-		rv.Set(reflect.ValueOf(time.Unix(v.I, v.N).UTC()))
+		tm := time.Unix(v.I, v.N).UTC()
+		if v.B { // fixed zone with the given name and offset
+			tm = tm.In(time.FixedZone(string(v.S), int(int64(v.U))))
+		}
+		rv.Set(reflect.ValueOf(tm))
 	case d.K == "dur":
 		rv.SetInt(v.I)
 	case d.K == "any":
